@@ -393,6 +393,41 @@ func init() {
 		return tuple{a[1], iface{}}
 	})
 
+	// ---- misc runtime-internal ----
+	reg("sync.runtime_registerPoolCleanup", func(fr *frame, a []value) value { return nil })
+	reg("time.Date", func(fr *frame, a []value) value {
+		stubHit("time.Date (zero time)")
+		return zero(fr.fn.Signature.Results().At(0).Type())
+	})
+	index := func(s, sub []value) int {
+		n := len(sub)
+		for i := 0; i+n <= len(s); i++ {
+			eq := true
+			for j := 0; j < n; j++ {
+				if !conc(symBinopEq(s[i+j], sub[j])).(bool) {
+					eq = false
+					break
+				}
+			}
+			if eq {
+				return i
+			}
+		}
+		return -1
+	}
+	reg("internal/bytealg.Index", func(fr *frame, a []value) value { return index(a[0].([]value), a[1].([]value)) })
+	reg("internal/bytealg.IndexString", func(fr *frame, a []value) value { return index(strBytes(a[0]), strBytes(a[1])) })
+	lastIndexByte := func(s []value, c value) int {
+		for i := len(s) - 1; i >= 0; i-- {
+			if conc(symBinopEq(s[i], c)).(bool) {
+				return i
+			}
+		}
+		return -1
+	}
+	reg("internal/bytealg.LastIndexByte", func(fr *frame, a []value) value { return lastIndexByte(a[0].([]value), a[1]) })
+	reg("internal/bytealg.LastIndexByteString", func(fr *frame, a []value) value { return lastIndexByte(strBytes(a[0]), a[1]) })
+
 	// ---- runtime ----
 	reg("runtime.Callers", func(fr *frame, a []value) value { return 0 })
 	reg("runtime.Caller", func(fr *frame, a []value) value { return tuple{uintptr(0), "", 0, false} })
